@@ -6,6 +6,7 @@ import (
 	"fmt"
 	"math/rand"
 	"os"
+	"os/exec"
 	"path/filepath"
 	"runtime/debug"
 	"sort"
@@ -171,6 +172,9 @@ func genMain(args []string) {
 		defer func() {
 			if r := recover(); r != nil {
 				stack := string(debug.Stack())
+				if wp, ok := r.(*workerPanic); ok { // raised in a worker goroutine of parallel(): use its stack
+					r, stack = wp.val, wp.stack
+				}
 				// where did it start? the frame just below the runtime's panic frames
 				origin := ""
 				lines := strings.Split(stack, "\n")
@@ -324,4 +328,18 @@ func (g *gen) concurrentReplay() {
 		g.predEvals += len(sample)
 		g.counts["pred:concurrent-result-differs"] += len(sample)
 	}
+}
+
+// freshProcess runs protocol lines in a new process of this harness and returns its answers
+func freshProcess(script []string) []string {
+	exe, err := os.Executable()
+	if err != nil {
+		return nil
+	}
+	dir, _ := os.MkdirTemp("", "fresh")
+	defer os.RemoveAll(dir)
+	opsFile := filepath.Join(dir, "ops.txt")
+	writeLines(opsFile, script)
+	outb, _ := exec.Command(exe, "run", opsFile).Output()
+	return strings.Split(strings.TrimRight(string(outb), "\n"), "\n")
 }
